@@ -36,6 +36,17 @@ def semunit(name, cfg, actors, init, victims, quick, thorough, tier=None):
         u["tier"] = tier
     return u
 
+PROPS["C05"]["units"] += [
+    # the b_ignore (cancel disabled) path of lock(): reachable only through Condvar::wait's re-lock
+    dict(name="nocancel_spec",
+         tlc=[("spec/l2/MCMutex.tla", "spec/l2/MCMutex_F16.cfg"), ("spec/l2/MCMutex.tla", "spec/l2/MCMutex_F16fixed.cfg")],
+         tlc_expect_error="TryLockSound is violated|MutualExclusion is violated|Deadlock reached"),
+    dict(name="relock_nocancel", scenario="condvar",
+         params=dict(actors=[co("a1", ["wait"]), th("a2", ["notify_one"]), co("a3", ["notify_one"])], victims=["a1"], workers=8, deep=True),
+         quick=dict(explore=dict(n=300), dfs=dict(max=300, pb=2)),
+         thorough=dict(explore=dict(n=5000), dfs=dict(max=5000, pb=3))),
+]
+
 PROPS["C10"] = dict(
     assumptions=["Park/ThreadPark satisfy the AbsBlocker contract (C02); timers fire at their deadline (C08)",
                  "the SegQueue of waiters is a linearizable FIFO (crossbeam, trusted)"],
@@ -159,3 +170,27 @@ C07_UNITS += [
 ]
 PROPS["C06"] = dict(assumptions=["queues are linearizable FIFOs (C03); AbsBlocker (C02); timers (C08)"], units=C06_UNITS + C07_UNITS)
 PROPS["C07"] = dict(assumptions=["queues are linearizable FIFOs (C03); AbsBlocker (C02); timers (C08)"], units=C07_UNITS + C06_UNITS)
+
+def cvunit(name, cfg, actors, victims=(), n=300):
+    return dict(name=name, scenario="condvar",
+                tlc=[("spec/l2/MCCondvar.tla", cfg)], sim_spec=("spec/l2/MCCondvar.tla", cfg),
+                params=dict(actors=actors, victims=list(victims), workers=8),
+                quick=dict(sim=dict(num=n, depth=300), explore=dict(n=200), dfs=dict(max=300, pb=2)),
+                thorough=dict(sim=dict(num=5000, depth=300), explore=dict(n=3000), dfs=dict(max=5000, pb=3)))
+def cvdeep(name, actors, victims=(), n=500, barrier=2, deep=True):
+    return dict(name=name, scenario="condvar",
+                params=dict(actors=actors, victims=list(victims), workers=8, deep=deep, barrier=barrier),
+                quick=dict(explore=dict(n=n), dfs=dict(max=n, pb=2)),
+                thorough=dict(explore=dict(n=10 * n), dfs=dict(max=10 * n, pb=3)))
+
+PROPS["C11"] = dict(
+    assumptions=["the user Mutex satisfies its contract (C05); AbsBlocker (C02); timers (C08)"],
+    units=[
+        cvunit("timed3", "spec/l2/MCCondvar_timed.cfg", [co("a1", ["wait"]), co("a2", ["twait"], dur=1), th("a3", ["notify_one"])]),
+        cvunit("cancel3", "spec/l2/MCCondvar_cancel.cfg", [co("a1", ["wait"]), th("a2", ["wait"]), co("a3", ["notify_one"])], victims=["a1"]),
+        cvunit("all3", "spec/l2/MCCondvar_all.cfg", [co("a1", ["wait"]), th("a2", ["wait"]), co("a3", ["notify_one", "notify_all"])]),
+        cvdeep("deep_cancel", [co("a1", ["wait"]), th("a2", ["notify_one"]), co("a3", ["wait"]), th("a4", ["notify_one"])], victims=["a1"], n=800),
+        cvdeep("barrier2x2", [co("a1", ["barrier", "barrier"]), th("a2", ["barrier", "barrier"])], deep=False, n=300),
+        cvdeep("barrier3", [co("a1", ["barrier"]), th("a2", ["barrier"]), co("a3", ["barrier"])], barrier=3, deep=False, n=300),
+    ],
+)
